@@ -348,11 +348,14 @@ def write_replay(pid, kind, payload):
 
 
 def write_evidence(pid, ev):
-    os.makedirs(os.path.join(VERIF, "evidence"), exist_ok=True)
-    tmp = os.path.join(VERIF, "evidence", ".%s.%d.tmp" % (pid, os.getpid()))
+    # evidence/ describes runs against /repo; a run against another tree (VERIF_REPO, used to try seeded changes) writes its
+    # evidence under .work/ so that it never replaces the committed evidence
+    d = os.path.join(VERIF, "evidence") if os.path.realpath(REPO) == "/repo" else os.path.join(WORK, "evidence-other-tree")
+    os.makedirs(d, exist_ok=True)
+    tmp = os.path.join(d, ".%s.%d.tmp" % (pid, os.getpid()))
     with open(tmp, "w") as f:
         json.dump(ev, f, indent=1)
-    os.replace(tmp, os.path.join(VERIF, "evidence", pid + ".json"))
+    os.replace(tmp, os.path.join(d, pid + ".json"))
 
 
 def workdir(pid):
